@@ -71,6 +71,12 @@ def run(prop, tier, rule, nontrivial_key, assumptions):
         for sig, what, case in cli_configured_parameters():
             R.violation(sig, what, case)
         fam["cli"] = 1
+    if prop == "C02":
+        vio, n = cli_configured_found()
+        for sig, what, case in vio:
+            R.violation(sig, what, case)
+        fam["cli"] = n
+        tot["evals"] = tot.get("evals", 0) + n
     R.counters = dict(tot, evals_by_family=fam, shards=len(sh), reference_twin_cases=twin)
     R.assumptions = assumptions
     nontriv = sum(tot.get(k, 0) for k in nontrivial_key)
@@ -172,3 +178,75 @@ def replay(prop, path):
                          ad.adapter_wildcards, c["read_wildcards"], 1 if prop == "C01" else 2, stats)
     print("reference verdict:", bad or "fine")
     return 1 if bad else 0
+
+
+def cli_configured_found():
+    """Command-line seam of C02: what is found through the command line is what the adapters find when they are built DIRECTLY
+    (class constructors, no specification parser) with the parameters the user configured for each of them - global -e/-O,
+    inline ;e= ;o=, file-level parameters for the adapters of that file only, R1 options for R1 and R2 options for R2."""
+    import os
+
+    from cutadapt.adapters import BackAdapter, FrontAdapter
+
+    from .. import clih, refpipe
+
+    V = []
+    n = 0
+    wd = clih.fresh_dir("c02cli")
+    fa = os.path.join(wd, "primers.fa")
+    P1, P2, A, INL = "TTGACCAGGTAC", "GGATCCTTAGCA", "AGATCGGAAGAGCACACGTC", "CCGGTTAACC"
+    clih.write_text(fa, f">p1\n{P1}\n>p2\n{P2}\n")
+    inserts = ["CATCATGTGTGTCATT", "GGGTTTACACACTTGG", "TATATACCGGTTAACC"]
+    reads = []
+    for i in inserts:
+        reads += [i + A, i + A[:7], i + A[:4], i + A[:3], i + "AGATCGGTAGAGCACACGTC", P1 + i, P1[4:] + i, "GTAC" + i, "TTGTCCAGGTAC" + i + A[:6],
+                  i + INL[:5], i + INL[:3], i + "CCGGTAAACC" + "TT", i + P2 + "AC", P2[6:] + i + A[:5], i]
+    recs = [(f"r{k}", s_, "I" * len(s_)) for k, s_ in enumerate(reads)]
+    inp = os.path.join(wd, "in.fq")
+    clih.write_text(inp, clih.fastq_text(recs))
+    out, out2 = os.path.join(wd, "o.fq"), os.path.join(wd, "o2.fq")
+    GE, GO = 0.1, 5
+    for fe, fo in ((0.3, 2), (0.0, 10)):
+        file_spec = f"file:{fa};e={fe};o={fo}"
+        file_ads = lambda: [FrontAdapter(P1, max_errors=fe, min_overlap=fo, name="p1"), FrontAdapter(P2, max_errors=fe, min_overlap=fo, name="p2")]
+        ill = lambda: BackAdapter(A, max_errors=GE, min_overlap=GO, name="ill")
+        inl = lambda: BackAdapter(INL, max_errors=0.2, min_overlap=4, name="inl")
+        for label, order, ads in (
+                ("file first", ["-g", file_spec, "-a", f"ill={A}", "-a", f"inl={INL};e=0.2;o=4"], file_ads() + [ill(), inl()]),
+                ("file last", ["-a", f"ill={A}", "-a", f"inl={INL};e=0.2;o=4", "-g", file_spec], [ill(), inl()] + file_ads())):
+            for times in (1, 2):
+                argv = ["-e", str(GE), "-O", str(GO), "--times", str(times)] + order + ["-o", out, inp]
+                r = clih.run_cli(argv)
+                shown = [a if not a.startswith("/") else os.path.basename(a) for a in argv]
+                if r.exit != 0:
+                    V.append(("cli:failed", f"cutadapt failed: {r.exit} {r.exc} {r.errors()[:1]}", dict(argv=shown)))
+                    continue
+                got = clih.read_records(out)[1]
+                for (nm, s_, q), g in zip(recs, got):
+                    n += 1
+                    matches, kept = refpipe.adapter_rounds(ads, s_, times)
+                    es, _ = refpipe.apply_action(s_, q, matches, kept, "trim")
+                    if g[1] != es:
+                        V.append(("cli:configured-found", "through the command line the read is not trimmed as the adapters built with the "
+                                  f"configured parameters trim it ({label}; file-level e={fe} o={fo}, global e={GE} O={GO})",
+                                  dict(argv=shown, read=s_, got=g[1], expected=es, applied=[m.name for m in matches])))
+                        break
+        # paired-end: parameters of an R1 file: specification must not reach the R2 adapters
+        argv = ["-e", str(GE), "-O", str(GO), "-g", file_spec, "-A", f"ill={A}", "-o", out, "-p", out2, inp, inp]
+        r = clih.run_cli(argv)
+        shown = [a if not a.startswith("/") else os.path.basename(a) for a in argv]
+        if r.exit != 0:
+            V.append(("cli:failed", f"cutadapt failed: {r.exit} {r.exc} {r.errors()[:1]}", dict(argv=shown)))
+        else:
+            got2 = clih.read_records(out2)[1]
+            ads2 = [ill()]
+            for (nm, s_, q), g in zip(recs, got2):
+                n += 1
+                matches, kept = refpipe.adapter_rounds(ads2, s_, 1)
+                es, _ = refpipe.apply_action(s_, q, matches, kept, "trim")
+                if g[1] != es:
+                    V.append(("cli:configured-found:r2", "R2 is not trimmed as its adapter built with the configured (global) parameters trims it",
+                              dict(argv=shown, read=s_, got=g[1], expected=es)))
+                    break
+    clih.rmtree(wd)
+    return V, n
